@@ -27,7 +27,7 @@ from vf.clientconn import (MIB10, TIMEOUT, ClientHarness, caller_class, expected
 
 OWN = {"C13": {"PromptOnClose", "Faithful", "SegIndep", "Terminates", "ByteFaithful", "Prompt", "Capped"},
        "C11": {"NothingBeforeVerify", "ChangedGetsNothing", "RequestIntact"}}
-DEVS = {"C13": {"DevLookupErrorEscapes": ["PromptOnClose", "SegIndep"]},
+DEVS = {"C13": {"DevLookupErrorEscapes": ["PromptOnClose", "SegIndep"], "DevNonSuccessAtClose": ["SegIndep"]},
         "C11": {"DevSendInConnectionMade": ["NothingBeforeVerify", "ChangedGetsNothing"],
                 "DevUnreadableSkipsCheck": ["ChangedGetsNothing"]}}
 
@@ -203,6 +203,7 @@ def main(pid, rep=None, finish=True):
         # ---- B2: random grammar streams -----------------------------------------------------------------------------
         b2(pid, rep, rnd, own, 3000 if thorough else 500, d)
         decode_cost(pid, rep, rnd, own, thorough)
+        live_nonsuccess(pid, rep, rnd, own, thorough)
         b2_traces(pid, rep, rnd, own, 2000 if thorough else 400)
         b2_traces(pid, rep, rnd, own, 600 if thorough else 150, overlap=True)
         rep.assume("create_connection is served by a fake transport obeying the asyncio contract; TLS itself is exercised by the live checks")
@@ -273,6 +274,123 @@ def decode_cost(pid, rep, rnd, own, thorough):
                     h.close()
     rep.add("decode_cost_cases", cases)
     rep.set("decode_cost_worst", {"seconds_at_256KiB": round(worst[0], 4), "label": worst[1]})
+
+
+def live_nonsuccess(pid, rep, rnd, own, thorough):
+    """SegIndep / Faithful over real TLS for answers that are complete at the CRLF: a non-2x header followed by whatever the
+    server does next - more bytes in the same write, more bytes in a later write, close_notify, a bare TCP close, nothing for a
+    while.  The fake transport of the ClientConn replay drops what arrives after the client's own close; a TLS transport does
+    not (late application data during the client's shutdown is an SSL error, an unread close_notify turns the peer's close
+    into a reset), so only real sockets show whether the result depends on it.  The scripted peer is a blocking TLS server
+    of the check's own; the client is the real GeminiClient (get and upload)."""
+    if "SegIndep" not in own:
+        return
+    import asyncio as aio
+    import socket
+    import ssl
+    import threading
+    import time
+    from nauyaca.client.session import GeminiClient
+    from vf.memtls import CertFiles
+    cert = CertFiles("ec", "localhost")
+    ctx = ssl.SSLContext(ssl.PROTOCOL_TLS_SERVER)
+    ctx.load_cert_chain(cert.certfile, cert.keyfile)
+    lsock = socket.socket()
+    lsock.setsockopt(socket.SOL_SOCKET, socket.SO_REUSEADDR, 1)
+    lsock.bind(("127.0.0.1", 0))
+    lsock.listen(16)
+    port = lsock.getsockname()[1]
+    plan = {}
+    stop = []
+
+    def serve():
+        while not stop:
+            try:
+                raw, _ = lsock.accept()
+            except OSError:
+                return
+            try:
+                raw.settimeout(5)
+                s_ = ctx.wrap_socket(raw, server_side=True)
+                buf = b""
+                while b"\r\n" not in buf:
+                    d = s_.recv(4096)
+                    if not d:
+                        break
+                    buf += d
+                # (a well-behaved peer: it reads the whole request - an upload's content too - before it answers and closes)
+                line, _, rest = buf.partition(b"\r\n")
+                want = int(line.split(b";size=")[1].split(b";")[0]) if b";size=" in line else 0
+                while len(rest) < want:
+                    d = s_.recv(4096)
+                    if not d:
+                        break
+                    rest += d
+                mode, header, extra = plan["now"]
+                if mode in ("once", "once-fin"):
+                    s_.sendall(header + extra)
+                else:
+                    s_.sendall(header)
+                    time.sleep(0.2)
+                    if extra:
+                        try:
+                            s_.sendall(extra)
+                        except (OSError, ssl.SSLError):
+                            pass
+                if mode.endswith("fin"):
+                    s_.close()                        # bare TCP close: SSLSocket.close() sends no close_notify
+                else:
+                    try:
+                        plain_sock = s_.unwrap()      # close_notify, then the TCP close
+                        plain_sock.close()
+                    except (OSError, ssl.SSLError):
+                        s_.close()
+            except (OSError, ssl.SSLError):
+                try:
+                    raw.close()
+                except OSError:
+                    pass
+    th = threading.Thread(target=serve, daemon=True)
+    th.start()
+    n = 0
+    try:
+        statuses = [51, 10, 30, 44, 60] if thorough else [51, 30]
+        for st in statuses:
+            for mode in ("once", "late", "once-fin", "late-fin"):
+                for extra in (b"", b"sorry"):
+                    if mode.startswith("once") and not extra and mode == "once":
+                        pass
+                    for ep in ("get", "upload"):
+                        header = b"%d some meta\r\n" % st
+                        plan["now"] = (mode, header, extra)
+
+                        async def call():
+                            async with GeminiClient(timeout=3.0, trust_on_first_use=False, verify_ssl=False) as c:
+                                if ep == "get":
+                                    return await c.get("gemini://127.0.0.1:%d/x" % port, follow_redirects=False)
+                                return await c.upload("gemini://127.0.0.1:%d/x" % port, b"abc", mime_type="text/plain")
+                        try:
+                            r = aio.run(call())
+                            got = "response %s %r body=%r" % (r.status, r.meta, r.body)
+                            ok = r.status == st and r.meta == "some meta" and r.body in (None, "", b"")
+                        except Exception as e:  # noqa: BLE001
+                            got, ok = "%s: %s" % (type(e).__name__, str(e)[:80]), False
+                        n += 1
+                        if not ok:
+                            rep.violation({"formula": "SegIndep", "live": True, "nonsuccess": True, "mode": mode},
+                                          "['SegIndep', 'Faithful'] falsified over real TLS: the server answers %r and then %s%s: %s returned %s - the same answer written at once and closed in order is "
+                                          "returned as response %d" % (header, "sends %r " % extra if extra else "", {"once": "closes in order", "late": "(0.2 s later) closes in order",
+                                                                      "once-fin": "closes the TCP connection without close_notify", "late-fin": "(0.2 s later) closes the TCP connection without close_notify"}[mode],
+                                                                      ep, got, st), None)
+        rep.add("live_nonsuccess_calls", n)
+        rep.add("traces_validated_against_impl", n)
+    finally:
+        stop.append(1)
+        try:
+            lsock.close()
+        except OSError:
+            pass
+        cert.remove()
 
 
 def random_script(rnd, k):
